@@ -61,5 +61,72 @@ for n in names:
             print('%s(%d,%d): MISMATCH mirsym=%s native=%s' % (n, a, b, got, nat))
             break
         okc += 1
+# ---- symbolic mode: one symbolic execution per function (a, b free 64-bit vectors; paths merged), then the result term
+# and the panic obligations are evaluated under random assignments and compared with the native run
+sym_ok = sym_bad = sym_unsup = 0
+if os.environ.get('MODELTEST_SYMBOLIC', '1') == '1':
+    import z3
+    import signal
+
+    class _TO(Exception):
+        pass
+
+    def _alarm(*_):
+        raise _TO()
+    A, Bv = z3.BitVec('a', 64), z3.BitVec('b', 64)
+    for n in names:
+        if only and n not in only:
+            continue
+        tid = int(n[1:])
+        try:
+            signal.signal(signal.SIGALRM, _alarm)
+            signal.alarm(60)
+            ex = Executor(prog)
+            from props import fmtmodel
+            fmtmodel.install(ex)
+            ex.loop_bound = 40
+            r = ex.call(n, [A, Bv], ['u64', 'u64'], 'u64', State(), 'modeltest')
+            signal.alarm(0)
+        except _TO:
+            sym_unsup += 1
+            print('%s: symbolic execution did not finish in 60 s' % n)
+            continue
+        except Unsupported as e:
+            signal.alarm(0)
+            sym_unsup += 1
+            print('%s: symbolic: unsupported: %s' % (n, str(e)[:200]))
+            continue
+        except Exception as e:
+            signal.alarm(0)
+            sym_bad += 1
+            print('%s: symbolic: internal error %r' % (n, e))
+            continue
+        if r is None:
+            sym_unsup += 1
+            print('%s: symbolic: diverges on every path' % n)
+            continue
+        val, st2 = r
+        from mirsym.values import bv, zb
+        term = bv(val)
+        panics = [zb(ob.guard) for ob in ex.obligations if ob.kind in ('panic', 'unwind')]
+        for k in range(N):
+            a = rnd.getrandbits(rnd.choice([3, 8, 20, 64]))
+            b = rnd.getrandbits(rnd.choice([3, 8, 20, 64]))
+            nat = subprocess.run([TD + '/debug/modeltest', str(tid), str(a), str(b)], capture_output=True, text=True).stdout.strip()
+            sub = [(A, z3.BitVecVal(a, 64)), (Bv, z3.BitVecVal(b, 64))]
+            pan = any(z3.is_true(z3.simplify(z3.substitute(p_, *sub))) for p_ in panics)
+            if pan:
+                got = 'PANIC'
+            else:
+                v = z3.simplify(z3.substitute(term, *sub))
+                g = z3.simplify(z3.substitute(zb(st2.guard), *sub))
+                got = 'OK %d' % v.as_long() if z3.is_bv_value(v) and z3.is_true(g) else 'UNDETERMINED %s / guard %s' % (str(v)[:60], str(g)[:40])
+            if got != nat:
+                sym_bad += 1
+                print('%s(%d,%d): SYMBOLIC MISMATCH mirsym=%s native=%s' % (n, a, b, got, nat))
+                break
+            sym_ok += 1
+    print('modeltest symbolic: %d agreeing evaluations, %d mismatching functions, %d not executed symbolically' % (sym_ok, sym_bad, sym_unsup))
+    bad += sym_bad
 print('modeltest: %d agreeing runs, %d mismatching functions, %d unsupported' % (okc, bad, unsup))
 sys.exit(1 if bad else 0)
